@@ -69,6 +69,8 @@ pub struct Cli {
     pub backend_key: i32,
     pub next_stmt: u32,
     pub addr: String,
+    /// why the last read ended the connection (diagnostics only)
+    pub last_io: String,
 }
 
 #[derive(Debug, Clone)]
@@ -126,6 +128,7 @@ impl Cli {
             backend_key: 0,
             next_stmt: 0,
             addr: addr.to_string(),
+            last_io: String::new(),
         })
     }
 
@@ -182,7 +185,13 @@ impl Cli {
             }
             match tokio::time::timeout(deadline - now, s.read(&mut buf)).await {
                 Err(_) => return Err(ReadEnd::Timeout),
-                Ok(Ok(0)) | Ok(Err(_)) => {
+                Ok(Ok(0)) => {
+                    self.last_io = "eof".into();
+                    self.stream = None;
+                    return Err(ReadEnd::Closed);
+                }
+                Ok(Err(e)) => {
+                    self.last_io = format!("{:?}", e.kind());
                     self.stream = None;
                     return Err(ReadEnd::Closed);
                 }
